@@ -5,7 +5,9 @@
 static int traced_yylex(void);
 #include "parse_traced.c"
 #include "proto.h"
+#include "dump_expr.h"
 #include <sys/wait.h>
+#include <unistd.h>
 
 static FILE *trace_out;
 static int prev_token;
@@ -17,7 +19,7 @@ static int traced_yylex(void) {
 	int errs = parse_errors;
 	int tok = yylex();
 	long after = ftell(yyfh);
-	if (ntok++ < 4000) {
+	if (ntok++ < 4000 && trace_out != NULL) {
 		fprintf(trace_out, "%ld %d %d %d > ", off, pf, sf, am);
 		switch (tok) {
 		case 0: fputs("eof", trace_out); break;
@@ -71,6 +73,57 @@ static void op_lextrace(struct arg *a, FILE *out) {
 	fprintf(out, " E %d", rc);
 }
 
+/* conf <conf> <home> [<macro name> <macro value>]* -> "OK" + every block as dump_expr.h prints it + " L <yylex calls>",
+ * or "ERR <line of the first diagnostic>" (the diagnostics are read back from stderr: "<path>:<line>: <message>"),
+ * or "BADDEFS" when a -D definition is refused (mdsort.c exits before reading the file). */
+static void op_conf(struct arg *a, int n, FILE *out) {
+	struct config_list cl;
+	struct environment env;
+	char confpath[PATH_MAX], errpath[PATH_MAX], first[PATH_MAX + 256];
+	FILE *f;
+	size_t i, plen;
+	int rc;
+	snprintf(confpath, sizeof(confpath), "%s/conf", tdir);
+	snprintf(errpath, sizeof(errpath), "%s/stderr", tdir);
+	f = fopen(confpath, "w");
+	if (a[0].n) fwrite(a[0].p, 1, a[0].n, f);
+	fclose(f);
+	memset(&env, 0, sizeof(env));
+	strlcpy(env.ev_home, (const char *)a[1].p, sizeof(env.ev_home));
+	env.ev_confpath = confpath;
+	config_init(&cl);
+	for (i = 2; i + 1 < (size_t)n; i += 2) {
+		if (macros_insert(cl.cl_macros, (char *)a[i].p, (char *)a[i + 1].p, MACRO_FLAG_CONST | MACRO_FLAG_STICKY, 0)) {
+			fputs("BADDEFS", out);
+			return;
+		}
+	}
+	trace_out = NULL;
+	prev_token = 0;
+	ntok = 0;
+	if (freopen(errpath, "w", stderr) == NULL) { fputs("HARNESSERR", out); return; }
+	rc = config_parse(&cl, confpath, &env);
+	fflush(stderr);
+	if (rc) {
+		long line = -1;
+		first[0] = 0;
+		f = fopen(errpath, "r");
+		if (f != NULL) { if (fgets(first, sizeof(first), f) == NULL) first[0] = 0; fclose(f); }
+		plen = strlen(confpath);
+		if (strncmp(first, confpath, plen) == 0 && first[plen] == ':') line = strtol(first + plen + 1, NULL, 10);
+		fprintf(out, "ERR %ld", line);
+		return;
+	}
+	fputs("OK", out);
+	for (i = 0; i < VECTOR_LENGTH(cl.cl_list); i++) {
+		fputs(" B", out);
+		dx_strings(out, cl.cl_list[i].paths);
+		dx_expr(out, cl.cl_list[i].expr);
+		fputs(" ;", out);
+	}
+	fprintf(out, " L %d", ntok);
+}
+
 int main(void) {
 	const char *base = getenv("HARNESS_TMP");
 	char *line = NULL;
@@ -85,8 +138,12 @@ int main(void) {
 		if (pid == 0) {
 			struct arg args[MAXARGS];
 			char *op;
-			int n = parse_req(line, &op, args);
-			if (n == 2 && strcmp(op, "lextrace") == 0) op_lextrace(args, stdout); else fputs("BADOP", stdout);
+			int n;
+			alarm(60);	/* a parser that does not terminate is reported as FAULT signal 14, not left running */
+			n = parse_req(line, &op, args);
+			if (n == 2 && strcmp(op, "lextrace") == 0) op_lextrace(args, stdout);
+			else if (n >= 2 && n % 2 == 0 && strcmp(op, "conf") == 0) op_conf(args, n, stdout);
+			else fputs("BADOP", stdout);
 			fputc('\n', stdout);
 			fflush(stdout);
 			_exit(0);
